@@ -127,9 +127,11 @@ def gen_module(case):
                     m, ', '.join(['self'] + e['methods'][m])))
                 lines.append('        pass')
         lines.append('')
+    done = set()
     for s in case.get('steppers') or []:
-        if 'shipped' in s:
+        if 'shipped' in s or s['cls'] in done:
             continue
+        done.add(s['cls'])         # one class may step several arrays
         lines.append('class %s(IntegratorStep):' % s['cls'])
         if not s['methods'] and not s['py']:
             lines.append('    pass')
@@ -285,9 +287,11 @@ RE_DST_LINE = re.compile(r'^(\w+) = dst\.(\w+)\.data$')
 RE_SRC_LINE = re.compile(r'^(\w+) = src\.(\w+)\.data$')
 
 
-def real_accesses(a_eval, helper):
-    """(array, property) for every pointer the generated compute() takes"""
+def real_accesses(a_eval, helper, odd=None):
+    """(array, property) for every pointer the generated compute() takes;
+    `odd` collects pointer variables bound to a property they do not name"""
     acc = set()
+    odd = [] if odd is None else odd
     for mg in a_eval.mega_groups:
         leaves = mg.data if mg.has_subgroups else [mg]
         for leaf in leaves:
@@ -297,11 +301,15 @@ def real_accesses(a_eval, helper):
                     m = RE_DST_LINE.match(ln.strip())
                     if m:
                         acc.add((dest, m.group(2)))
+                        if m.group(1) != 'd_' + m.group(2):
+                            odd.append((dest, m.group(1), m.group(2)))
                 for s, g in srcs.items():
                     for ln in helper.get_src_array_setup(s, g).split('\n'):
                         m = RE_SRC_LINE.match(ln.strip())
                         if m:
                             acc.add((s, m.group(2)))
+                            if m.group(1) != 's_' + m.group(2):
+                                odd.append((s, m.group(1), m.group(2)))
     return sorted(acc)
 
 
@@ -345,9 +353,70 @@ def real_stepper_accesses(ih):
     return sorted(acc)
 
 
+def real_stepper_bindings(ih):
+    """(array, variable, property) of every `var = dst.<prop>.data` line of
+    the generated integrator"""
+    out = set()
+    for m in ih.get_stepper_method_wrapper_names():
+        for dest in sorted(ih.object.steppers.keys()):
+            if ih.has_stepper_loop(dest, m):
+                for ln in ih.get_array_setup(dest, m).split('\n'):
+                    mm = RE_DST_LINE.match(ln.strip())
+                    if mm:
+                        out.add((dest, mm.group(1), mm.group(2)))
+    return sorted(out)
+
+
+RE_CDEF = re.compile(r'^cdef\s+(.*\S)\s+(\w+)$')
+
+
+def real_stepper_decls(integ, helper):
+    """per wrapped method what get_array_declarations(method) does: the
+    declared names, '!' (the RuntimeError of the check), '?name' (KeyError of
+    the type look-up) or the text of any other exception.  None when the
+    helper cannot even be constructed (invalid stepper keyword)."""
+    try:
+        with quiet():
+            ih = IntegratorCythonHelper(integ, helper)
+    except Exception:       # noqa
+        return None
+    out = {}
+    for m in ih.get_stepper_method_wrapper_names():
+        try:
+            with quiet():
+                txt = ih.get_array_declarations(m)
+            names = []
+            for ln in txt.split('\n'):
+                if not ln.strip():
+                    continue
+                mm = RE_CDEF.match(ln.strip())
+                names.append(mm.group(2) if mm else 'unparsed:' + ln.strip())
+            out[m] = sorted(names)
+        except RuntimeError:
+            out[m] = '!'
+        except KeyError as e:
+            out[m] = '?%s' % (e.args[0] if e.args else '')
+        except Exception as e:      # noqa
+            out[m] = 'exception %s: %s' % (type(e).__name__, str(e)[:120])
+    return out
+
+
+INTEGRATORS = {}
+
+
+def integrator_class(name):
+    if not INTEGRATORS:
+        from pysph.sph import integrator as I
+        for n in ('EulerIntegrator', 'PECIntegrator', 'EPECIntegrator',
+                  'TVDRK3Integrator'):
+            INTEGRATORS[n] = getattr(I, n)
+    return INTEGRATORS[name or 'EulerIntegrator']
+
+
 def run_impl(case):
     """Build everything the way a user would and record what happened."""
-    out = {'eq': None, 'step': None, 'access': None, 'saccess': None}
+    out = {'eq': None, 'step': None, 'access': None, 'saccess': None,
+           'ktypes': None, 'sdecl': None, 'sbind': None, 'odd': []}
     mod = gen_module(case)
     with table_installed(case) as tbl:
         out['table'] = [[k, sorted(cb.symbols)] for k, cb in tbl.items()]
@@ -408,9 +477,12 @@ def run_impl(case):
             return out
         try:
             helper = AccelerationEvalCythonHelper(a_eval)
-            acc = set(real_accesses(a_eval, helper))
+            out['ktypes'] = sorted(k for k in helper.known_types
+                                   if k[:2] in ('s_', 'd_'))
+            acc = set(real_accesses(a_eval, helper, out['odd']))
             for ae in a_evals[1:]:
-                acc |= set(real_accesses(ae, AccelerationEvalCythonHelper(ae)))
+                acc |= set(real_accesses(ae, AccelerationEvalCythonHelper(ae),
+                                         out['odd']))
             out['access'] = sorted(acc)
         except Exception as e:      # noqa
             out['access'] = None
@@ -418,7 +490,11 @@ def run_impl(case):
             return out
         if case.get('steppers') is None:
             return out
-        integ = EulerIntegrator(**dict(steppers))
+        try:
+            integ = integrator_class(case.get('integrator'))(**dict(steppers))
+        except Exception as e:      # noqa
+            out['step'] = ['exception', type(e).__name__, str(e)[:200]]
+            return out
         ih = None
         with quiet():
             try:
@@ -441,6 +517,8 @@ def run_impl(case):
                 out['step'] = ['exception', type(e).__name__, str(e)[:200]]
         if ih is not None:
             out['saccess'] = real_stepper_accesses(ih)
+            out['sbind'] = real_stepper_bindings(ih)
+        out['sdecl'] = real_stepper_decls(integ, helper)
     return out
 
 
@@ -501,7 +579,10 @@ def model_lines(case, impl):
              'access %s %s %s' % (T, Q, P),
              'build %s %s %s %s %s' % (T, A, Q, P, S),
              'saccess ' + S,
-             'checkorig %s %s %s' % (A, Q, P)]
+             'checkorig %s %s %s' % (A, Q, P),
+             'ktypes ' + A,
+             'sdecl %s %s' % (A, S),
+             'sbind ' + S]
     return lines
 
 
@@ -746,6 +827,12 @@ def oracle(case, impl, R):
                         'exists in that array',
                         'accepted, and the code generator emits reads of %r'
                         % (bad[:6],))
+    if impl.get('odd'):
+        ok = False
+        R.prop_fail('C20:binds-unrelated-memory', case,
+                    'a pointer variable d_<p> / s_<p> of the generated '
+                    'compute() is bound to property <p> of the destination / '
+                    'source', 'bound as %r' % (impl['odd'][:6],))
     # steppers
     if case.get('steppers') is not None and v[0] == 'ok':
         sv = stepper_view(case)
@@ -796,6 +883,28 @@ def oracle(case, impl, R):
                 R.prop_fail('C20:stepper:accepted', case,
                             'every array pointer the generated integrator '
                             'takes exists', 'reads of %r' % (bad[:6],))
+        if impl.get('sbind'):
+            # every s_*/d_* argument of a wrapped method must be bound, to the
+            # property it names, of the array being stepped
+            odd = [b for b in impl['sbind']
+                   if b[1] not in ('d_' + b[2], 's_' + b[2])]
+            bound = set((b[0], b[1]) for b in impl['sbind'])
+            unbound = []
+            for s in sv:
+                if s['dest'] not in arrs:
+                    continue
+                for m, args in s['methods'].items():
+                    for a in args:
+                        if a[:2] in ('d_', 's_') and a not in ('d_idx', 's_idx') \
+                                and (s['dest'], a) not in bound:
+                            unbound.append((s['dest'], m, a))
+            if odd or unbound:
+                ok = False
+                R.prop_fail('C20:stepper:binds-unrelated-memory', case,
+                            'every d_<p>/s_<p> argument of a stepper method is '
+                            'bound to <p> of the array being stepped',
+                            'mis-bound %r, never bound %r'
+                            % (odd[:6], unbound[:6]))
     return ok
 
 
@@ -1040,8 +1149,67 @@ def rand_table(rng):
     return spec
 
 
+STAGES = ['initialize', 'stage1', 'stage2', 'stage3', 'stage4']
+
+
+def stepper_arg_props(args):
+    return arr_names(args, 'd_') | arr_names(args, 's_')
+
+
+def rand_stepper_methods(rng, syms):
+    """method signatures of a generated stepper: destination-style and
+    source-style array arguments (the integrator binds both kinds to the
+    array being stepped), constants, d_idx / s_idx, t / dt"""
+    ms = {}
+    for m in rng.sample(STAGES, rng.choice([1, 2, 3])):
+        args = ['d_idx']
+        for _ in range(rng.choice([1, 2, 3])):
+            args.append(rng.choice(['d_', 'd_', 's_']) + rng.choice(syms))
+        if rng.random() < 0.15:
+            args.append('s_idx')
+        if rng.random() < 0.4:
+            args.append(rng.choice(['dt', 't']))
+        rng.shuffle(args)
+        ms[m] = list(dict.fromkeys(args))
+    return ms
+
+
+def gen_synth_stepper_exhaustive(rng):
+    """the quantifier, literally, for a generated stepper class applied to
+    two arrays: every name it needs (through d_* or s_*) x removal from the
+    second array while the first one keeps it"""
+    import copy
+    syms = rng.sample(PROPS, 6) + rng.sample(CONSTS, 1)
+    ms = rand_stepper_methods(rng, syms)
+    names = rng.sample(ARR_NAMES, 2)
+    need = set()
+    for args in ms.values():
+        need |= stepper_arg_props(args)
+    need -= set(DEFAULT_PROPS)
+    mk = lambda n: {'name': n,  # noqa
+                    'props': sorted(p for p in need if p not in CONSTS),
+                    'consts': sorted(p for p in need if p in CONSTS)}
+    base = {'table': None, 'full': rng.random() < 0.5,
+            'eqs': [{'cls': 'E0', 'dest': names[0], 'sources': [names[1]],
+                     'methods': {'initialize': ['d_idx', 'd_tag']}}],
+            'structure': [['F', [0]]],
+            'steppers': [{'dest': n, 'cls': 'StX', 'methods': ms, 'py': []}
+                         for n in names],
+            'arrays': [mk(n) for n in names],
+            'label': 'synth-stepper:exhaustive'}
+    out = [base]
+    for n in sorted(need):
+        c = copy.deepcopy(base)
+        for key in ('props', 'consts'):
+            if n in c['arrays'][1][key]:
+                c['arrays'][1][key].remove(n)
+        out.append(c)
+    return out
+
+
 def gen_synth_case(rng, mode, synth_table=False, with_steppers=False):
-    names = rng.sample(ARR_NAMES, rng.choice([1, 2, 2, 3]))
+    names = rng.sample(ARR_NAMES, rng.choice(
+        [1, 2, 2, 3, 2, 3] if with_steppers else [1, 2, 2, 3]))
     table = rand_table(rng) if synth_table else None
     tcode = [[k, c] for k, c, _ in table] if table else real_tcode()
     keys = [k for k, _ in tcode]
@@ -1056,27 +1224,30 @@ def gen_synth_case(rng, mode, synth_table=False, with_steppers=False):
     if with_steppers:
         sts = []
         for k, d in enumerate(rng.sample(names, rng.choice(
-                [1, len(names)]))):
-            ms = {}
-            for m in rng.sample(['initialize', 'stage1', 'stage2', 'stage3'],
-                                rng.choice([1, 2, 3])):
-                args = ['d_idx']
-                for _ in range(rng.choice([1, 2, 3])):
-                    args.append('d_' + rng.choice(syms))
-                if rng.random() < 0.4:
-                    args.append('dt')
-                ms[m] = list(dict.fromkeys(args))
-            py = ['stage2'] if 'stage2' not in ms and rng.random() < 0.3 \
-                else []
-            sts.append({'dest': d, 'cls': 'St%d' % k, 'methods': ms,
-                        'py': py})
+                [1, len(names), len(names)]))):
+            if sts and rng.random() < 0.4:
+                # the same stepper class applied to several arrays
+                t0 = rng.choice(sts)
+                sts.append({'dest': d, 'cls': t0['cls'],
+                            'methods': {m: list(a) for m, a in
+                                        t0['methods'].items()},
+                            'py': list(t0['py'])})
+                continue
+            sts.append({'dest': d, 'cls': 'St%d' % k,
+                        'methods': rand_stepper_methods(rng, syms),
+                        'py': []})
+            if 'stage2' not in sts[-1]['methods'] and rng.random() < 0.3:
+                sts[-1]['py'] = ['stage2']
         case['steppers'] = sts
         case['full'] = not synth_table
+        if rng.random() < 0.3:
+            case['integrator'] = rng.choice(
+                ['PECIntegrator', 'EPECIntegrator', 'TVDRK3Integrator'])
         # make the stepper needs available too, then perhaps break them
         arrs = {a['name']: a for a in case['arrays']}
         for s in sts:
             for args in s['methods'].values():
-                for n_ in arr_names(args, 'd_'):
+                for n_ in sorted(stepper_arg_props(args)):
                     a = arrs[s['dest']]
                     if n_ not in a['props'] and n_ not in a['consts']:
                         (a['consts'] if n_ in CONSTS else a['props']).append(n_)
@@ -1090,22 +1261,39 @@ def gen_synth_case(rng, mode, synth_table=False, with_steppers=False):
             case['label'] = 'synth:stepper-misspelt'
         else:
             arrs = {a['name']: a for a in case['arrays']}
-            cands = []
+            cands = set()
             for s in sts:
                 for args in s['methods'].values():
-                    for n_ in arr_names(args, 'd_'):
-                        cands.append((s['dest'], n_))
+                    for a_ in args:
+                        if a_[:2] in ('d_', 's_') and \
+                                a_ not in ('d_idx', 's_idx'):
+                            cands.add((s['dest'], a_[2:], a_[:1]))
             # only break names no equation needs on that array, so that the
             # equation check passes and the stepper check is reached
-            cands = [c for c in sorted(set(cands))
+            cands = [c for c in sorted(cands)
                      if c[1] not in need.get(c[0], ()) and
                      c[1] not in DEFAULT_PROPS]
+            if mode == 'stepper-remove-s':
+                # names that reach the array ONLY through a source-style
+                # argument (s_<p> of a stepper is bound to the stepped array)
+                only_s = [c for c in cands if c[2] == 's' and
+                          (c[0], c[1], 'd') not in cands]
+                cands = only_s or cands
             if cands:
-                a, n_ = rng.choice(cands)
+                a, n_, kind = rng.choice(cands)
                 for key in ('props', 'consts'):
                     if n_ in arrs[a][key]:
                         arrs[a][key].remove(n_)
-                case['label'] = 'synth:stepper-removed'
+                others = [b for b in case['arrays'] if b['name'] != a]
+                if others and rng.random() < 0.8:
+                    # the realistic shape: another array does have it (else
+                    # the code generator stumbles over the unknown type by
+                    # itself)
+                    b = rng.choice(others)
+                    if n_ not in b['props'] and n_ not in b['consts']:
+                        (b['consts'] if n_ in CONSTS else
+                         b['props']).append(n_)
+                case['label'] = 'synth:stepper-removed-%s_' % kind
             else:
                 case['label'] = 'synth:complete'
     else:
@@ -1206,6 +1394,27 @@ def corpus():
              'methods': {'post_loop': ['d_idx', 'd_m', 'd_total_mass']}}],
              structure=[['F', [0]]],
              arrays=[{'name': 'f', 'props': ['m'], 'consts': ['total_mass']}]),
+        # a stepper names what it needs through a source-style argument; the
+        # integrator binds `s_damp = dst.damp.data` on the array being stepped
+        dict(base, label='corpus:stepper-s-arg', full=True, eqs=[
+            {'cls': 'E0', 'dest': 'f', 'sources': None,
+             'methods': {'initialize': ['d_idx', 'd_au']}}],
+             structure=[['F', [0]]],
+             steppers=[{'dest': n, 'cls': 'StDamp', 'py': [], 'methods': {
+                 'stage1': ['d_idx', 'd_x', 'd_au', 's_damp', 'dt']}}
+                 for n in ('f', 's')],
+             arrays=[{'name': 'f', 'props': ['au', 'x', 'damp'], 'consts': []},
+                     {'name': 's', 'props': ['au', 'x'], 'consts': []}]),
+        # the same through a constant, spelt d_<const>, in a late stage
+        dict(base, label='corpus:stepper-constant', full=False, eqs=[
+            {'cls': 'E0', 'dest': 'f', 'sources': None,
+             'methods': {'initialize': ['d_idx', 'd_au']}}],
+             structure=[['F', [0]]],
+             steppers=[{'dest': n, 'cls': 'StC', 'py': ['stage2'], 'methods': {
+                 'stage3': ['d_idx', 'd_x', 's_c0', 't']}}
+                 for n in ('f', 's')],
+             arrays=[{'name': 'f', 'props': ['au', 'x'], 'consts': ['c0']},
+                     {'name': 's', 'props': ['au', 'x'], 'consts': []}]),
         dict(base, label='corpus:misspelt-dest', eqs=[
             dict(vij, dest='fluid')], structure=[['F', [0]]],
              arrays=[{'name': 'f', 'props': ['au', 'u', 'v', 'w'],
@@ -1236,6 +1445,45 @@ def check_case(case, impl, lines, mod, R, may_sample):
     m_build = mod[2]
     m_sacc = parse_model_acc(mod[3])
     m_orig = parse_model_verdict(mod[4])
+    m_kt, m_decl, m_bind = mod[5], mod[6], mod[7]
+    # keys of known_types (what the declaration sites look names up in)
+    if impl.get('ktypes') is not None:
+        got = sorted(set([] if m_kt == 'kt _' else m_kt[3:].split(';'))) \
+            if m_kt.startswith('kt ') else m_kt
+        if got != impl['ktypes']:
+            R.disagree({'case': case, 'line': lines[5]}, got, impl['ktypes'],
+                       'keys of known_types')
+        R.count('tie:known_types')
+    # the declaration site of the integrator, method by method
+    if impl.get('sdecl') is not None:
+        want = {}
+        if m_decl.startswith('decl ') and m_decl != 'decl _':
+            for tok in m_decl[5:].split(' '):
+                k, v = tok.split('=', 1)
+                want[k] = v if v[:1] in '!?' else (
+                    [] if v == '_' else v.split(';'))
+        elif m_decl != 'decl _':
+            want = m_decl
+        if want != impl['sdecl']:
+            R.disagree({'case': case, 'line': lines[6]}, want, impl['sdecl'],
+                       'get_array_declarations(method) per wrapped method')
+        R.count('tie:stepper-declarations', len(impl['sdecl']))
+        for v in impl['sdecl'].values():
+            R.count('stepper-declaration:' + (
+                'names' if isinstance(v, list) else v[:1] if v[:1] in '!?'
+                else 'exception'))
+    # the binding site
+    if impl.get('sbind') is not None:
+        got = sorted(set(tuple(x.split('.')) for x in m_bind[5:].split(';'))
+                     if m_bind != 'bind _' else []) \
+            if m_bind.startswith('bind ') else m_bind
+        ib = [tuple(x) for x in impl['sbind']]
+        if got != ib:
+            R.disagree({'case': case, 'line': lines[7]}, got, ib,
+                       'pointer variables bound by the generated integrator')
+        R.count('tie:stepper-bindings', len(ib))
+        R.count('stepper-bindings:source-style',
+                sum(1 for b in ib if b[1].startswith('s_')))
     # L1: accept / reject and the named items
     if m_check != impl['eq']:
         R.disagree({'case': case, 'line': lines[0]}, m_check, impl['eq'],
@@ -1364,8 +1612,12 @@ def main():
         'instantiated without __init__, or generated classes with random '
         'method signatures) x group structure (plain list, groups, '
         'sub-groups, empty groups, repeated equations) x optional steppers '
-        '(shipped or generated), made incomplete by removing one explicitly '
-        'or implicitly needed name from the destination or one source, or by '
+        '(shipped or generated; generated ones take d_* and s_* arguments, '
+        'constants, one class on several arrays, any shipped integrator '
+        'class), made incomplete by removing one explicitly '
+        'or implicitly needed name from the destination or one source (for '
+        'steppers: a name reached through d_* or only through s_*, while '
+        'another array keeps it), or by '
         'misspelling an array name; distinct = distinct case JSON; '
         'non-trivial = at least one array and one equation that needs an '
         'array property or a precomputed symbol')
@@ -1411,11 +1663,13 @@ def main():
         cases.append(gen_synth_case(rng, rng.choice(modes)))
     for i in range(nsyn):
         cases.append(gen_synth_case(rng, rng.choice(modes), synth_table=True))
-    smodes = ['none', 'stepper-remove', 'stepper-remove', 'stepper-misspell',
-              'any']
-    for i in range(nsyn // 2):
+    smodes = ['none', 'stepper-remove', 'stepper-remove', 'stepper-remove-s',
+              'stepper-remove-s', 'stepper-misspell', 'any']
+    for i in range(nsyn if quick else nsyn // 2):
         cases.append(gen_synth_case(rng, rng.choice(smodes),
                                     with_steppers=True))
+    for i in range(12 if quick else 150):
+        cases += gen_synth_stepper_exhaustive(rng)
     for i in range(10):
         cases.append(gen_exact_case(rng))
     check_cases(cases, R, sample_from=ncorpus)
